@@ -89,7 +89,12 @@ pub fn check_roundtrip(c: &mut Case, name: &str, t: &TextArchive, content: &Cont
             }
         }
     }
-    // library re-parse
+    // library re-parse (not under Miri for the UTF-16 format: encoding_rs 0.8.24's UTF-16 decoder
+    // uses mem::uninitialized, which Miri rejects - a tool limit, see DESIGN §2.3)
+    if cfg!(miri) && content.unicode {
+        c.outcome("miri_skipped_utf16_reparse");
+        return;
+    }
     match c.lib("TextArchive::from_bytes", || TextArchive::from_bytes(&ser, fmt(content.unicode), endian(content.be))) {
         None => {}
         Some(Err(e)) => c.fail(
@@ -264,7 +269,7 @@ pub fn run(cx: &mut Ctx) {
         cx.case("bom_like_first_characters", |c| check(c, "bom_like_first_characters", &t));
     }
     // ---- exhaustive: every BMP scalar as a 1-char message and as first char of a 2-char message
-    let step = if cfg!(miri) { 4099 } else { 1 };
+    let step = if cfg!(miri) { 16411 } else { 1 };
     let per = 256u32;
     let mut cp = 1u32;
     while cp <= 0xFFFF {
